@@ -792,8 +792,10 @@ class Extractor(object):
     """Run over one FunctionDef; result: .events (ordered), .env_at_exit, .params"""
 
     def __init__(self, func_node, const_resolver=None, inliner=None, parent=None, init_env=None, depth=0, grename=None,
-                 self_consts=None):
+                 self_consts=None, attr_renames=None):
         self.grename = grename      # spelling of module-level names of a body inlined from another module
+        # {new attribute name: pinned name} for back-pointers a refactoring renamed consistently
+        self.attr_renames = attr_renames if attr_renames is not None else (parent.attr_renames if parent is not None else None)
         # (name of the analysed method's self, lookup of class-level constants seen through it)
         self.self_consts = self_consts if self_consts is not None else (parent.self_consts if parent is not None else None)
         self.func = func_node
@@ -1011,11 +1013,16 @@ class Extractor(object):
                 cv = self._simple_const(self.const_resolver(node.id))
                 if cv is not None:
                     return cv
-            return ("global", self.grename(node.id) if self.grename is not None else node.id)
+            gname = self.grename(node.id) if self.grename is not None else node.id
+            if self.attr_renames and ("<global>" + gname) in self.attr_renames:
+                gname = self.attr_renames["<global>" + gname]        # a known private function under a new name
+            return ("global", gname)
         if isinstance(node, ast.Attribute):
             base = E(node.value)
             if base[0] == "global":
                 return ("global", base[1] + "." + node.attr)
+            if self.attr_renames and node.attr in self.attr_renames:
+                return ("attr", base, self.attr_renames[node.attr])
             if base[0] == "obj" and isinstance(node.ctx, ast.Load):
                 for a_, v_ in base[2]:
                     if a_ == node.attr:
@@ -1808,8 +1815,8 @@ class Extractor(object):
         return True, env, ()
 
 
-def extract(func_node, inliner=None, const_resolver=None, self_consts=None):
-    return Extractor(func_node, inliner=inliner, const_resolver=const_resolver, self_consts=self_consts)
+def extract(func_node, inliner=None, const_resolver=None, self_consts=None, attr_renames=None):
+    return Extractor(func_node, inliner=inliner, const_resolver=const_resolver, self_consts=self_consts, attr_renames=attr_renames)
 
 
 # ---- guard helpers -------------------------------------------------------------------------------------
